@@ -36,6 +36,10 @@ pub enum Ev {
     RoundOpen,
     /// the other fixture signers in the bit mask register at the aggregator in the current epoch
     Others(u8),
+    /// the chain enters the next epoch but only the aggregator notices (its clock = node epoch + 1)
+    AggAhead,
+    /// the signer's node catches up with the aggregator's epoch
+    NodeCatchUp,
     /// the next signature publication is received but its acknowledgement is lost
     PublishFails,
     /// the next registration of the signer is recorded but its acknowledgement is lost
@@ -106,6 +110,8 @@ pub async fn apply(w: &mut World, ev: &Ev, log: &mut Vec<String>) -> bool {
             w.more_blocks(15).await;
             true
         }
+        Ev::AggAhead => w.aggregator_ahead(),
+        Ev::NodeCatchUp => w.node_catches_up().await,
         Ev::AggDown => toggle(true, |s| &mut s.down),
         Ev::AggUp => toggle(false, |s| &mut s.down),
         Ev::StaleOn => toggle(true, |s| &mut s.stale),
@@ -219,7 +225,7 @@ pub async fn canon(w: &World) -> String {
             .map(|p| format!("{}:{}:{}{}", p.epoch, entity_str(&p.entity), if p.acked { "a" } else { "u" }, if p.accepted { "" } else { "!" }))
             .collect();
         pubs.sort();
-        json!({"down": a.down, "stale": a.stale, "closed": a.round_closed, "pf": a.publish_fails_next, "ral": a.register_ack_lost_next,
+        json!({"down": a.down, "stale": a.stale, "skew": a.skew, "closed": a.round_closed, "pf": a.publish_fails_next, "ral": a.register_ack_lost_next,
                "regs": regs, "pubs": pubs, "findings": a.findings.len()})
     });
     let init_epochs: Vec<u64> = {
@@ -337,14 +343,16 @@ pub fn replay(scratch: &Path, fixture: &MithrilFixture, history: &[Ev], tail: Ta
                 st.step = history.len() as i64;
                 st.findings.len()
             });
-            log.push("-- tail: faults cleared, 3 x [Epoch, Tick, Tick], Tick".into());
+            log.push("-- tail: faults cleared, node catches up if behind, 3 x [Epoch, Tick, Tick, Tick]".into());
+            apply(&mut w, &Ev::NodeCatchUp, &mut log).await;
             for _ in 0..SIGN_DELAY + 1 {
                 apply(&mut w, &Ev::Epoch, &mut log).await;
+                // two cycles to register, a third one that signs if the signer is able to
+                apply(&mut w, &Ev::Tick, &mut log).await;
                 apply(&mut w, &Ev::Tick, &mut log).await;
                 apply(&mut w, &Ev::Tick, &mut log).await;
             }
-            apply(&mut w, &Ev::Tick, &mut log).await;
-            let e = w.outside.agg.chain_epoch().await as u64;
+            let e = w.outside.agg.node_epoch().await as u64;
             let (signed_again, tail_found): (bool, Vec<(&'static str, String, i64)>) = w.outside.agg.with(|st| {
                 (
                     st.publications.iter().any(|p| p.epoch == e && p.acked && p.accepted && p.entity == SignedEntityType::MithrilStakeDistribution(Epoch(e))),
@@ -361,7 +369,7 @@ pub fn replay(scratch: &Path, fixture: &MithrilFixture, history: &[Ev], tail: Ta
                 found.push((
                     "C20/signer-does-not-sign-again",
                     format!(
-                        "after the history, with every fault cleared, the chain went through three more epochs ({}..={e}) with two state-machine cycles each for registration; in epoch {e} a further cycle published no accepted signature for the Mithril stake distribution (final state {})",
+                        "after the history, with every fault cleared and the node caught up with the aggregator, the chain went through three more epochs ({}..={e}) with three state-machine cycles each (two to register, one to sign); in epoch {e} no accepted signature for the Mithril stake distribution was published (final state {})",
                         e - 2,
                         w.state().await
                     ),
@@ -380,6 +388,8 @@ pub fn replay(scratch: &Path, fixture: &MithrilFixture, history: &[Ev], tail: Ta
         let mut stats = BTreeMap::new();
         w.outside.agg.with(|st| {
             stats.insert("registrations_accepted", st.registrations_accepted);
+            stats.insert("registrations_accepted_while_aggregator_ahead", st.registrations_accepted_while_ahead);
+            stats.insert("publications_while_aggregator_ahead", st.publications_while_ahead);
             stats.insert("registrations_refused_round_closed", st.registrations_refused_round_closed);
             stats.insert("registrations_refused_wrong_epoch", st.registrations_refused_wrong_epoch);
             stats.insert("registrations_refused_invalid", st.registrations_refused_invalid);
@@ -502,10 +512,10 @@ pub fn reference_selfcheck(scratch: &Path, fixture: &MithrilFixture) -> Result<V
         m.set_message_part(ProtocolMessagePartKey::CurrentEpoch, "4242".to_string());
         let v2 = submit(last.entity.clone(), last.signature.clone(), m).await;
         verdicts.insert("submitted_with_another_message".into(), json!(if v2 { "accepted" } else { "rejected" }));
-        // one epoch later: other keys, stake distribution and parameters are in force
-        w.next_epoch().await;
-        let v3 = submit(last.entity.clone(), last.signature.clone(), last.message.clone()).await;
-        verdicts.insert("submitted_one_epoch_later".into(), json!(if v3 { "accepted" } else { "rejected" }));
+        // for the entity of the next epoch: other keys, stake distribution and parameters are in force
+        let next_entity = SignedEntityType::MithrilStakeDistribution(Epoch(last.epoch + 1));
+        let v3 = submit(next_entity, last.signature.clone(), last.message.clone()).await;
+        verdicts.insert("submitted_for_the_entity_of_the_next_epoch".into(), json!(if v3 { "accepted" } else { "rejected" }));
         w.node = None;
         if !genuine || v1 || v2 || v3 {
             return Err(format!("reference aggregator self-check failed: {verdicts:?}"));
@@ -515,4 +525,19 @@ pub fn reference_selfcheck(scratch: &Path, fixture: &MithrilFixture) -> Result<V
     drop(rt);
     let _ = std::fs::remove_dir_all(&dir);
     res
+}
+
+/// The nominal schedule seen through an aggregator whose node is always first to enter an epoch: the
+/// signer starts while the aggregator is already one epoch ahead, and at every epoch boundary the
+/// aggregator moves first, the signer runs a cycle, then its node catches up.
+pub fn nominal_skewed(epochs: usize, slack: usize) -> Vec<Ev> {
+    let mut s = vec![Ev::AggAhead, Ev::Tick, Ev::Tick, Ev::NodeCatchUp];
+    for e in nominal(epochs, slack) {
+        if e == Ev::Epoch {
+            s.extend([Ev::AggAhead, Ev::Tick, Ev::NodeCatchUp]);
+        } else {
+            s.push(e);
+        }
+    }
+    s
 }
